@@ -68,6 +68,10 @@ CHECKS = {
              text="TLC enumerates scheme (10, incl. omitted and helper schemes) x URL host form (IPv4, bracketed IPv6 compressed and expanded, domain) x port presence x dial_addr form (none, v4, v4:port, v6, [v6]:port, domain, domain:port, @unix) and checks that the port is explicit or the scheme default and that SNI/Host never depend on dial_addr; each row is passed to the real NewUpstream and one exchange is attempted while the Control hook (UDP observation sockets for QUIC/HTTP3) records where the socket layer connects; 5 certificate kinds x CA set/unset x skip-verify x {tls, tls+pipeline, https, quic} run against fake servers (recording SNI and Host) through the router's own makeTlsConfig, and tls/https/quic listeners with verify_client_cert on/off are queried with no / right-CA / other-CA client certificates; TLC checks every observation against Target, Sni, TlsAccept and Serve.",
              note="Decision-table conformance; X.509 path validation is Go's crypto/tls; unreachable IPv6 literals cannot be observed for quic/h3.",
              ref="DESIGN.md section 4 C17"),
+ "C14": dict(technique="TLA+ model of an exchange's wait states with the exits each transport's select really has and clock urgency (TLC exhaustive per transport kind; the blocking write without deadline is rejected) + fault-scripted servers on real sockets for every transport built by the real NewUpstream + TLC trace validation of deadlines, stale-connection recovery, prompt wake-up and retry bounds",
+             text="TLC checks per transport kind (pipelined, one-at-a-time, stream/DoQ/DoH) that no reachable wait state lacks a ctx exit (deadline invariant under urgency), the retry bound and that a stale pooled connection is never fatal, and rejects the pre-repair blocking write; on real loopback sockets udp, tcp, tcp+pipeline, tls, tls+pipeline, https and quic upstreams are driven against servers that refuse, accept and stay silent, never reply, send half a frame or garbage, FIN/RST after the query, stall the TLS handshake, close the idle connection between exchanges, kill the connection under five waiters, or stop reading with 4 KB socket buffers and 60 KB queries; TLC checks every exchange end against its deadline + 1 s, that exchanges after the fault on a healthy server succeed, that waiters of a killed connection end within 1 s of the kill, and the dial count bound.",
+             note="Scenario classes, not every byte position; h3 upstreams not exercised.",
+             ref="DESIGN.md section 4 C14"),
 }
 
 PENDING_REASON = "check under construction in this round (see DESIGN.md section 4); not claimed until its machinery is committed and passes on the unchanged tree"
